@@ -524,6 +524,9 @@ def run(ctx):
     # three threads: the state space is too large for BFS here; simulated schedules only (invariants checked along them)
     threads_part(ctx, quick, rnd, nthreads=3)
     stress_part(ctx, quick)
+    # two renderings interleaved at their loop bodies (semaphores, deterministic) and renderings nested in loop bodies
+    from .c08 import nested_render_part
+    nested_render_part(ctx)
     # separately compiled instances do not influence each other: rejected templates, templates with options of their own
     from .. import isolation
     ctx.replays += isolation.run(ctx, "separately compiled templates")
